@@ -109,20 +109,19 @@ def run(ctx: Ctx):
            "the target buffer is not initialised with the padding value", rel, oc.line)
     # the scatter mask of the target buffer: count > position (tokens first, then only padding)
     sc = [c for c in own_calls(oc.node) if isinstance(c.func, ast.Attribute) and c.func.attr in ("masked_scatter_", "masked_scatter") and c.args]
-    tmv = None
-    if len(sc) == 1 and isinstance(sc[0].args[0], ast.Name):
-        ds = list(rdo.defs_of(sc[0].args[0]))
-        tmv = ds[0].value if len(ds) == 1 else None
+    # decided on the expansion, either orientation: <counts>.unsqueeze(-1) > arange(C)  /  arange(C) < <counts>.unsqueeze(-1),
+    # with counts a sum of the mask
+    from sa.astutil import oriented
+    from sa.inline import Inliner
+    inl_o = Inliner(oc.node, rdo)
+    tmv = inl_o.expand(sc[0].args[0]) if len(sc) == 1 else None
     oktm = False
-    if isinstance(tmv, ast.Compare) and len(tmv.ops) == 1 and isinstance(tmv.ops[0], ast.Gt):
-        l, r_ = tmv.left, tmv.comparators[0]
-        # left: <counts>.unsqueeze(-1) where counts = mask.sum(2); right: torch.arange(<C>)
-        oktm = isinstance(l, ast.Call) and isinstance(l.func, ast.Attribute) and l.func.attr == "unsqueeze" \
-            and isinstance(r_, ast.Call) and call_name(r_) == "torch.arange"
-        if oktm and isinstance(l.func.value, ast.Name):
-            cd = list(rdo.defs_of(l.func.value))
-            oktm = len(cd) == 1 and isinstance(cd[0].value, ast.Call) and isinstance(cd[0].value.func, ast.Attribute) \
-                and cd[0].value.func.attr == "sum"
+    o_ = oriented(tmv, lambda e: isinstance(e, ast.Call) and call_name(e) == "torch.arange") if tmv is not None else None
+    if o_ is not None:
+        op_, _, other_ = o_
+        oktm = op_ == "lt" and isinstance(other_, ast.Call) and isinstance(other_.func, ast.Attribute) and other_.func.attr == "unsqueeze" \
+            and [u(a_) for a_ in other_.args] == ["-1"] and isinstance(other_.func.value, ast.Call) \
+            and isinstance(other_.func.value.func, ast.Attribute) and other_.func.value.func.attr == "sum"
     col.ob("G12", "S2", f"{rel}::optimal_completion::targets-left-aligned", oktm,
            f"target slots are filled under `{u(tmv) if tmv is not None else None}`; expected count > position (tokens first, then only padding)", rel, oc.line)
     plumbing(ctx, "S1")
